@@ -918,10 +918,50 @@ func (x *Exec) rangeStmt(st *State, fr *Frame, s *ast.RangeStmt, k func(*State))
 		restO := types.NewVar(s.Pos(), x.pkg.Types, fmt.Sprintf("rest#%d", ord), xt)
 		st.vars[idxO] = tInt(0)
 		lst.Ty = xt
+		if asi := x.d.sorts[lst.Sort]; asi != nil && asi.Kind == "arrslice" {
+			// array-backed slice: range is the index loop over the slice value taken at entry
+			ln := tApp("Int", "len_"+lst.Sort, lst)
+			hiddenA := func(s0 *State) map[string]Term {
+				m := map[string]Term{"idx": s0.vars[idxO], "range": lst}
+				if id, ok := s.Key.(*ast.Ident); ok && id.Name != "_" && s.Tok == token.DEFINE {
+					m[id.Name] = s0.vars[idxO]
+				}
+				return m
+			}
+			headA := func(s0 *State, enter, exit func(*State)) {
+				i := s0.vars[idxO]
+				t := s0.clone()
+				t.assume(tAnd(tApp("Bool", "<=", tInt(0), i), tApp("Bool", "<", i, ln)))
+				if s.Key != nil {
+					x.store(t, fr, s.Key, i)
+				}
+				if s.Value != nil {
+					el := mk(asi.Elem, "(select (arr_%s %s) %s)", lst.Sort, lst.S, i.S)
+					el.Ty = u.Elem()
+					x.store(t, fr, s.Value, el)
+				}
+				enter(t)
+				f := s0.clone()
+				f.assume(tApp("Bool", ">=", i, ln))
+				exit(f)
+			}
+			postA := func(e *State, k2 func(*State)) {
+				e.vars[idxO] = tApp("Int", "+", e.vars[idxO], tInt(1))
+				k2(e)
+			}
+			x.genericLoop(st, fr, s, s.Body.List, hiddenA, headA, postA, k)
+			return
+		}
 		st.vars[restO] = lst
 		si := x.d.sorts[lst.Sort]
 		hidden := func(s0 *State) map[string]Term {
-			return map[string]Term{"idx": s0.vars[idxO], "rest": s0.vars[restO], "range": lst}
+			m := map[string]Term{"idx": s0.vars[idxO], "rest": s0.vars[restO], "range": lst}
+			// an invariant written for the index form of the loop (for i := 0; i < len(xs); i++)
+			// names the counter: in the range form the key variable is that counter
+			if id, ok := s.Key.(*ast.Ident); ok && id.Name != "_" && s.Tok == token.DEFINE {
+				m[id.Name] = s0.vars[idxO]
+			}
+			return m
 		}
 		head := func(s0 *State, enter, exit func(*State)) {
 			rest := s0.vars[restO]
